@@ -2,7 +2,7 @@ package models
 
 // govc-bounded: dir=models
 // govc-bounded: stands-in-for=C12 textual round trip and tag-order independence of key and hash (string rewriting and sorting of the whole key are outside what the SMT encoding decides)
-// govc-bounded: bound=every point with measurement from 3 names, 0..3 tags (quick) / 0..4 tags (thorough) with keys/values from 5 strings incl. escapes, one field from 9 values of all types; every rotation and the reversal of the tag list; plus every raw line of length 1..6 (thorough: 1..7) over the alphabet {m space TAB = , 1 " backslash}: whatever the parser accepts must survive the text and the binary round trip
+// govc-bounded: bound=every point with measurement from 3 names, 0..3 tags (quick) / 0..4 tags (thorough) with keys/values from 5 strings incl. escapes, one field from 9 values of all types; every rotation and the reversal of the tag list; plus every raw line of length 1..6 (thorough: 1..7) over the alphabet {m space TAB = , 1 " backslash}: whatever the parser accepts must survive the text and the binary round trip; plus line independence: every string of length 0..5 (thorough: 0..6) over that alphabet without the double quote, followed by a valid line - the valid line comes back as the last point and the points before it are those of the first line alone
 
 import (
 	"bytes"
@@ -142,6 +142,51 @@ func TestGovcBounded(t *testing.T) {
 		return true
 	}
 	if !raw() {
+		fmt.Println("GOVC-BOUNDED-FAIL", fail)
+		return
+	}
+	// line independence: a line - accepted or malformed - does not change what the NEXT line of the request
+	// means. Every string without a double quote (a quoted string may legitimately span lines) and without a
+	// line feed, over the same alphabet, followed by a valid line: that line has to come back as the last point,
+	// and the points before it are those of the first line alone.
+	maxFirst := maxRaw - 1
+	second := "m2 v=2 7"
+	wantSecond, _ := ParsePointsString(second)
+	first := []byte{}
+	var indep func() bool
+	indep = func() bool {
+		cases++
+		alone, _ := ParsePointsWithPrecision(first, time.Unix(0, 0).UTC(), "n")
+		joined, _ := ParsePointsWithPrecision([]byte(string(first)+"\n"+second), time.Unix(0, 0).UTC(), "n")
+		ok := len(joined) == len(alone)+1 && joined[len(joined)-1].String() == wantSecond[0].String()
+		for i := 0; ok && i < len(alone); i++ {
+			ok = joined[i].String() == alone[i].String()
+		}
+		if !ok {
+			var got []string
+			for _, p := range joined {
+				got = append(got, p.String())
+			}
+			fail = fmt.Sprintf("line %q followed by the valid line %q: the request yields %q (the first line alone yields %d points)", first, second, got, len(alone))
+			return false
+		}
+		if len(first) == maxFirst {
+			return true
+		}
+		for _, c := range alphabet {
+			if c == '"' {
+				continue
+			}
+			first = append(first, c)
+			ok := indep()
+			first = first[:len(first)-1]
+			if !ok {
+				return false
+			}
+		}
+		return true
+	}
+	if !indep() {
 		fmt.Println("GOVC-BOUNDED-FAIL", fail)
 		return
 	}
